@@ -319,3 +319,91 @@ pub proof fn lemma_boff_split(inp: Seq<char>, n: int, l: int)
     reveal(boff);
     lemma_take_take_skip(inp, n, l);
 }
+
+// ---------------------------------------------------------------- peeking
+/// ms are the consecutive next tokens from char index q in the (fixed) current mode of s; qe is the char index after the last
+pub open spec fn toks_from<M: Fn(CharClassID, char) -> bool>(s: ScannerImpl<M>, inp: Seq<char>, q: int, ms: Seq<Match>, qe: int) -> bool
+    decreases ms.len()
+{
+    if ms.len() == 0 { qe == q } else {
+        exists|qp: int| toks_from(s, inp, q, ms.drop_last(), qp) && #[trigger] is_next_tok(s, inp, qp, ms.last(), qe)
+    }
+}
+
+pub open spec fn cur_trans<M: Fn(CharClassID, char) -> bool>(s: ScannerImpl<M>) -> Seq<(TerminalID, ScannerModeID)> {
+    s.scanner_modes@[s.current_mode as int].transitions@
+}
+
+/// none of the first k tokens triggers a mode switch
+pub open spec fn no_switch<M: Fn(CharClassID, char) -> bool>(s: ScannerImpl<M>, ms: Seq<Match>, k: int) -> bool {
+    forall|i: int| 0 <= i < k ==> tr_lookup(cur_trans(s), (#[trigger] ms[i]).token_type) is None
+}
+
+/// effect of advance_char_indices_beyond_match on the sequence of (index, char) pairs still to come:
+/// k items are consumed
+pub open spec fn adv_k(rem: Seq<(usize, char)>, start: int, end: int, k: int) -> bool {
+    if start >= end || rem.len() == 0 { k == 0 } else {
+        &&& 1 <= k <= rem.len()
+        &&& (k < rem.len() ==> rem[k - 1].0 + clen(rem[k - 1].1) >= end)
+        &&& forall|j: int| 0 <= j < k - 1 ==> (#[trigger] rem[j]).0 + clen(rem[j].1) < end
+    }
+}
+
+pub proof fn lemma_ci_seq_len(s: Seq<char>, b: nat)
+    ensures ci_seq(s, b).len() == s.len()
+{
+}
+
+pub proof fn lemma_ci_seq_at(inp: Seq<char>, m: int, n: int, j: int)
+    requires 0 <= m <= n, 0 <= j, n + j < inp.len(), blen(inp) <= usize::MAX
+    ensures
+        ci_seq(inp.skip(n), (boff(inp, n) - boff(inp, m)) as nat)[j] == ((boff(inp, n + j) - boff(inp, m)) as usize, inp[n + j]),
+        boff(inp, m) <= boff(inp, n + j), boff(inp, n + j) < blen(inp),
+{
+    reveal(boff);
+    lemma_take_take_skip(inp, n, j);
+    lemma_blen_take_mono(inp, m, n);
+    lemma_blen_take_mono(inp, n, n + j);
+    lemma_blen_take_mono(inp, n + j, n + j + 1);
+}
+
+pub proof fn lemma_ci_seq_skip(inp: Seq<char>, m: int, n: int, k: int)
+    requires 0 <= m <= n, 0 <= k, n + k <= inp.len()
+    ensures ci_seq(inp.skip(n), (boff(inp, n) - boff(inp, m)) as nat).skip(k) == ci_seq(inp.skip(n + k), (boff(inp, n + k) - boff(inp, m)) as nat)
+    decreases k
+{
+    reveal(boff);
+    let a = ci_seq(inp.skip(n), (boff(inp, n) - boff(inp, m)) as nat);
+    if k == 0 {
+        assert(a.skip(0) =~= a);
+    } else {
+        lemma_ci_seq_skip(inp, m, n, k - 1);
+        lemma_blen_take_mono(inp, m, n);
+        lemma_blen_take_mono(inp, n, n + k - 1);
+        lemma_ci_seq_step(inp, n + k - 1, (boff(inp, n + k - 1) - boff(inp, m)) as nat);
+        lemma_blen_take_next(inp, n + k - 1);
+        assert(a.skip(k) =~= a.skip(k - 1).drop_first());
+    }
+}
+
+/// adv_k on the items of a cursor standing at char n is adv_target on the input (positions relative to byte boff(m))
+pub proof fn lemma_adv_k_target(inp: Seq<char>, m: int, n: int, start: int, end: int, k: int)
+    requires
+        0 <= m <= n <= inp.len(), blen(inp) <= usize::MAX, start < end,
+        adv_k(ci_seq(inp.skip(n), (boff(inp, n) - boff(inp, m)) as nat), start, end, k),
+    ensures adv_target(inp, n, end + boff(inp, m), n + k), 0 <= k, n + k <= inp.len()
+{
+    let rem = ci_seq(inp.skip(n), (boff(inp, n) - boff(inp, m)) as nat);
+    lemma_ci_seq_len(inp.skip(n), (boff(inp, n) - boff(inp, m)) as nat);
+    if n < inp.len() {
+        assert forall|j: int| n < j < n + k implies boff(inp, j) < end + boff(inp, m) by {
+            lemma_ci_seq_at(inp, m, n, j - 1 - n);
+            lemma_boff_next(inp, j - 1);
+            assert(rem[j - 1 - n].0 + clen(rem[j - 1 - n].1) < end);
+        }
+        if n + k < inp.len() {
+            lemma_ci_seq_at(inp, m, n, k - 1);
+            lemma_boff_next(inp, n + k - 1);
+        }
+    }
+}
